@@ -106,6 +106,28 @@ func (c *FnCtx) ghostIntrinsic(fr *Frame, st *State, fn *ssa.Function, args []*T
 		return []*Term{c.getCell(st, c.curFrame.iterByLoop[int(k)].count)}, true
 	case "verifHeight":
 		return []*Term{c.height(st, args[0])}, true
+	case "verifSeqEq": // equality of two slices as sequences of values (maps compared by identity)
+		return []*Term{ts.Eq(args[0], args[1])}, true
+	case "verifRangeIndex": // index of the element the slice-range loop with the given ordinal handled last (-1 before the first)
+		k, ok := args[0].IntLit()
+		if !ok || c.curFrame == nil {
+			unsupported("verifRangeIndex needs a literal loop ordinal")
+		}
+		for h, ord := range c.curFrame.loops.heads {
+			if ord != int(k) {
+				continue
+			}
+			for _, in := range h.Instrs {
+				if sto, ok := in.(*ssa.Store); ok {
+					if a, ok := sto.Addr.(*ssa.Alloc); ok && a.Comment == "rangeindex" {
+						if cell, ok := c.curFrame.cells[a]; ok {
+							return []*Term{c.getCell(st, cell)}, true
+						}
+					}
+				}
+			}
+		}
+		unsupported("verifRangeIndex: loop #%d is not a slice range loop", k)
 	case "verifVisited": // has the map-range loop with the given ordinal already delivered this key?
 		k, ok := args[0].IntLit()
 		if !ok || c.curFrame == nil || c.curFrame.iterByLoop[int(k)] == nil {
